@@ -50,13 +50,23 @@ TIE (measured every run, numbers in evidence/C16.json)
   ORACLE (property statement, public API): exact Fraction arithmetic on the build tree (independent of Coq);
        for grammar strings the meaning given by PYTHON'S OWN parser (ast) over exact numbers.
 
+  Deterministic grid on every run (neutral_grid): every binary operator with 0, 1, -1 on either side of a
+       rational-valued operand (n/2 at n=3, (n-m)/3, n/2+m/3) and every unary operator on it — added after the
+       seeded change C16-r2m2 (`x // 1` returning x unchanged for x = n/2) went undetected: the random trees
+       almost never put an identity-looking constant next to a non-integer subtree; the random stream now does
+       so in ~14% of inner nodes as well.
+
 READINGS
   * expressions whose exact value does not exist under the binding are outside the statement;
-  * a non-integer exact value must come back as the dimension whose text is that rational ("7/2");
+  * a non-integer exact value must come back as the dimension whose text is that rational ("7/2"), or as a
+    closed dimension whose text reads back to it (SymPy sometimes leaves "Max(2, 7)/3" unevaluated);
   * `3 // N` and `3 % N` raise TypeError (SymbolicDim has no __rfloordiv__/__rmod__): the expression cannot be
     built, so nothing is claimed about it (noted as a gap, not a violation); the generator writes such ints as
     SymbolicDim("3");
   * any exception type counts as "rejects"; a simplify() that does not return in 6 s is not judged.
+
+OUTSIDE THE PROPERTY (observed, not judged): a constant raised to a symbolic non-integer exponent, e.g.
+  SymbolicDim("(-1)**(N/2)").simplify() has the text "I**N", whose "I" reads back as a symbol named I.
 
 MODELLED, NOT VERIFIED
   SymPy's algebra, automatic evaluation, simplify and printer (oracle / trusted base); non-ASCII characters;
@@ -742,12 +752,49 @@ def gen_tree(rng, d: int, names: list[str], top: bool = True):
             # rounding of a quotient is the interesting case
             sub = ["div", sub, rng.choice([["int", rng.choice([2, 3, 4, -2, -3])], gen_tree(rng, d - 2, names, False)])]
         return [k, sub]
+    if r < 0.36:
+        # identity-looking constants (0, 1, -1) on either side of every operator, over a rational-valued operand
+        k = rng.choice(BIN)
+        sub = _rational_sub(rng, names, max(d - 2, 0))
+        c = ["int", rng.choice(NEUTRAL)]
+        # (no constant ** symbolic-rational: (-1)**(N/2) leaves the real numbers, outside the property)
+        return [k, sub, c] if (k == "pow" or rng.random() < 0.6) else [k, c, sub]
     k = rng.choice(["add", "sub", "mul", "div", "floordiv", "mod", "add", "sub", "mul", "floordiv", "mod", "max", "min", "pow"])
     a = gen_tree(rng, d - 1, names, False)
     if k == "pow":
         return ["pow", a, ["int", rng.choice([0, 1, 2, 2, 3, -1, -2])]]
     b = gen_tree(rng, d - 1, names, False)
     return [k, a, b]
+
+
+NEUTRAL = (0, 1, -1)
+
+
+def _rational_sub(rng, names, d=1):
+    """A subtree whose value is usually NOT an integer (a quotient)."""
+    num = gen_tree(rng, d, names, False) if rng.random() < 0.5 else ["sym", rng.choice(names)]
+    return ["div", num, ["int", rng.choice([2, 3, 4, -2, -3])]]
+
+
+def neutral_grid() -> list[dict]:
+    """Every binary operator with the identity-looking constants 0, 1, -1 on either side of a rational-valued
+    operand (n/2 at odd n, (n - m)/3, ...): `(n / 2) // 1` is floor(n/2), not n/2.  Run on every check."""
+    out = []
+    bases = [(["div", ["sym", "n"], ["int", 2]], {"n": 3}),
+             (["div", ["sub", ["sym", "n"], ["sym", "m"]], ["int", 3]], {"n": 2, "m": 9}),
+             (["add", ["div", ["sym", "n"], ["int", 2]], ["div", ["sym", "m"], ["int", 3]]], {"n": 5, "m": 4})]
+    for base, b in bases:
+        for op in BIN:
+            for c in NEUTRAL:
+                for t in ((["%s" % op, base, ["int", c]],) if op == "pow" else
+                          (["%s" % op, base, ["int", c]], ["%s" % op, ["int", c], base])):
+                    out.append({"tree": t, "bindings": dict(b), "partial": {}})
+                    if len(b) > 1:
+                        out.append({"tree": t, "bindings": dict(b), "partial": {"n": b["n"]}})
+        for op in UN:
+            if op != "sqrt":
+                out.append({"tree": [op, base], "bindings": dict(b), "partial": {}})
+    return out
 
 
 def gen_case(rng, thorough: bool):
@@ -816,7 +863,7 @@ def build(t):
     raise AssertionError(k)
 
 
-def val(x):
+def val(x, _depth: int = 0):
     """Canonical observation of an evaluate() result."""
     import onnx_ir as ir
     if isinstance(x, bool):
@@ -830,6 +877,16 @@ def val(x):
         try:
             q = Fraction(v.replace(" ", ""))
         except (ValueError, ZeroDivisionError):
+            # a closed residual that SymPy left unevaluated ("Max(2, 7)/3"): read it through its own text once
+            if _depth == 0:
+                try:
+                    if not x.free_symbols():
+                        r = val(ir.SymbolicDim(v).evaluate({}), 1)
+                        if r[0] in ("int", "frac"):
+                            return ["frac", r[1], r[2] if r[0] == "frac" else 1] if r[0] == "frac" else \
+                                ["frac", r[1], 1]
+                except Exception:  # noqa: BLE001
+                    pass
             return ["other", v]
         return ["frac", q.numerator, q.denominator]
     return ["other", type(x).__name__]
@@ -1550,6 +1607,9 @@ def run(ck) -> None:
     n_str = 500 if not ck.thorough else 12000
     n_tree = 260 if not ck.thorough else 6000
     s_items += gen_string_items(rng, n_str)
+    grid = neutral_grid()
+    ck.coverage["neutral_constant_grid_cases"] = len(grid)
+    t_cases += grid
     t_cases += [gen_case(rng, ck.thorough) for _ in range(n_tree)]
     check_strings(ck, s_items, report_string)
     check_trees(ck, t_cases, report_tree)
